@@ -562,6 +562,58 @@ func TestVerif_Probes(t *testing.T) {
 	}) {
 		r.Violation("self-deadlock/duplicates", 0, map[string]any{"message": "WriteTxn(t1,t1,t0,t1,t2,t0) from a single goroutine did not return"})
 	}
+	// the same with many tables (c10r8-2: de-duplication through a 64-bit set): a database of 300 tables, table sets of 2-40 tables
+	// drawn from every region of the position range (0-63, 64-127, 128-255, 256-299), each named 1-4 times at random places of
+	// the argument list, so that repeats are adjacent and far apart; every table named must be writable in the transaction
+	{
+		dbm := statedb.New()
+		many := concw.NewTables(dbm, "m", 300)
+		rng := r.Rand(7_000_001)
+		rounds := 200
+		for round := 0; round < rounds && r.Violations() < 3; round++ {
+			n := 2 + rng.IntN(39)
+			var set []statedb.TableMeta
+			var named []int
+			for i := 0; i < n; i++ {
+				var pos int
+				switch rng.IntN(4) {
+				case 0:
+					pos = rng.IntN(64)
+				case 1:
+					pos = 64 + rng.IntN(64)
+				case 2:
+					pos = 128 + rng.IntN(128)
+				default:
+					pos = 256 + rng.IntN(44)
+				}
+				named = append(named, pos)
+				for k := 1 + rng.IntN(4); k > 0; k-- {
+					set = append(set, many[pos])
+				}
+			}
+			rng.Shuffle(len(set), func(i, j int) { set[i], set[j] = set[j], set[i] })
+			id := fmt.Sprintf("r%d", round)
+			ok := within(10*time.Second, func() {
+				w := dbm.WriteTxn(set...)
+				for _, pos := range named {
+					many[pos].Insert(w, &concw.Row{ID: id})
+				}
+				w.Commit()
+			})
+			r.Count("many_table_duplicate_sets", 1)
+			if !ok {
+				r.Violation("self-deadlock/duplicates-many-tables", round, map[string]any{"message": fmt.Sprintf("WriteTxn over %d arguments naming %d of 300 tables (positions %v, each 1-4 times, shuffled) from a single goroutine did not return", len(set), n, named)})
+				break
+			}
+			rt := dbm.ReadTxn()
+			for _, pos := range named {
+				if _, _, found := many[pos].Get(rt, concw.IDIndex.Query(id)); !found {
+					r.Violation("duplicates-many-tables/write-lost", round, map[string]any{"message": fmt.Sprintf("row %s written to table m%d in a transaction over a table set with repeats is not in the committed state", id, pos)})
+				}
+			}
+			r.Case(vkit.NewHash().Str("dupmany").Int(int64(round)).Sum(), true)
+		}
+	}
 	for _, v := range ctl.Violations() {
 		r.Violation("monitor/lock-order", 0, map[string]any{"message": v})
 	}
